@@ -38,6 +38,10 @@ DEFS = {
     'loadP_upto': (['L', 'j', 'n'], 'Count(q, n, L[q] != None and L[q].project_index == j)', 'parametric'),
     'loadL_upto': (['L', 'k', 'n'], 'Count(q, n, L[q] != None and L[q].lecturer_index == k)', 'parametric'),
     'loadS_upto': (['L', 's', 'n'], 'Count(q, n, L[q] != None and L[q].student_index == s)', 'parametric'),
+    # the summands of the three counts as lists (bindings of SUM/ext when a list grows by an append)
+    'loadP_terms': (['L', 'j', 'n'], 'lam(q, n, ite(L[q] != None and L[q].project_index == j, 1, 0))', 'parametric'),
+    'loadL_terms': (['L', 'k', 'n'], 'lam(q, n, ite(L[q] != None and L[q].lecturer_index == k, 1, 0))', 'parametric'),
+    'loadS_terms': (['L', 's', 'n'], 'lam(q, n, ite(L[q] != None and L[q].student_index == s, 1, 0))', 'parametric'),
     'loadP': (['L', 'j'], 'loadP_upto(L, j, len(L))'),
     'loadL': (['L', 'k'], 'loadL_upto(L, k, len(L))'),
     'loadS': (['L', 's'], 'loadS_upto(L, s, len(L))'),
@@ -70,6 +74,13 @@ DEFS = {
     # ---- LP vocabulary: chi(p) = value of p's decision variable under the ghost valuation
     'chi': (['p'], 'nu(p.lp_var)'),
     'varsum': (['row'], 'Sum(q, len(row), nu(row[q].lp_var))', 'parametric'),
+    # the same sum under the values reported by the last solve
+    'solsum_upto': (['row', 'n'], 'Sum(q, n, solved(row[q].lp_var))', 'parametric'),
+    'solsum': (['row'], 'solsum_upto(row, len(row))'),
+    # the same sum for an ARBITRARY weight W of the list entries (W is uninterpreted where the lists are built; a composition lemma
+    # instantiates it with the variable's value) and its summands as a list (binding of SUM/ext when a list grows)
+    'wsum': (['row'], 'Sum(q, len(row), W(row[q]))', 'parametric'),
+    'w_terms': (['row', 'n'], 'lam(q, n, W(row[q]))', 'parametric'),
     'has_vars': (['rows'], "forall(i, 0, len(rows), forall(c, 0, len(rows[i]), rows[i][c] != None and has(rows[i][c], 'lp_var')))"),
 
     # rows list projects in non-decreasing rank order (ties share a rank)
